@@ -1,5 +1,6 @@
 """C09 — every wire has exactly one driver, or the program is rejected."""
 from props.common_prog import judge_prog
+from props import C19
 
 THEOREM_MODULES = ["Hcl.Theorems.C09", "Hcl.Tie.Fixed", "Hcl.Tie.PinsBuild", "Hcl.Theorems.C09Exact", "Hcl.Theorems.C08Spec"]
 THEOREMS = {"Hcl.Theorems.C08Spec": ["C08_spec_accepts_sound", "C08_spec_accepts_complete", "C08_spec_faults_iff_accepted", "accepted_design_tables", "SF.cyclicNodes_nil_iff", "SF.faults_nil_iff"],
@@ -25,4 +26,7 @@ def judge(req, impl, model, spec):
 def streams(tier, seed):
     q = tier == "quick"
     return [{"name": "prog-fault", "stream": "prog-fault", "count": 3000 if q else 150000, "judge": judge},
-            {"name": "prog-dag", "stream": "prog", "count": 200 if q else 5000, "extra": ("dag",), "judge": judge}]
+            {"name": "prog-dag", "stream": "prog", "count": 200 if q else 5000, "extra": ("dag",), "judge": judge},
+            # the same decisions for programs that come from FILES (accepted, rejected, larger than 64 KiB, not UTF-8, bare-CR
+            # line ends): the real binary, as in C19
+            {"name": "cli", "stream": "cli", "count": 300 if q else 8000, "pygen": C19.pygen, "judge": C19.judge}]
